@@ -53,7 +53,8 @@ Inductive res :=
 | RN (n : N).
 
 Inductive point :=
-| PtFinish | PtInsBeforeSend | PtGetAfterPush | PtRemBeforeSend | PtWaitAfterSend | PtWaitBeforeBlock
+| PtFinish | PtInsBeforeSend | PtGetAfterPush | PtRemBeforeSend | PtWaitAfterCheck | PtWaitAfterSend | PtWaitBeforeBlock
+| PtClearAfterCheck
 | PtClearBeforeBlock | PtCloseAfterFlag | PtCloseBeforeStop | PtCloseBeforePolicy | PtPolCloseBeforeStop
 | PtPolCloseAfterStop
 | PtProcLoop | PtProcNewAfterAdd | PtProcNewAfterStore | PtProcNewVictim | PtProcDelAfterPolicy
@@ -84,6 +85,8 @@ Inductive ccont :=
 | KInsSend (it : item) (k : N)
 | KGetStore (k c : N) (write : option N)
 | KRemSend (k c : N)
+| KWaitStart
+| KClearStart
 | KWaitAfterSend (id : N)
 | KWaitBlock (id : N)
 | KClearBlock (id : N) (closing : bool)
@@ -283,21 +286,12 @@ Definition start_op (c : cfg) (st : cstate) (a : N) (op : cop) : step_result :=
       StepOk (set_client (upd_store st sto) a (KRemSend k cf))
              (mk_out PtRemBeforeSend (match prev with Some e => [CbExit (e_val e)] | None => [] end) RNone)
   | OWait =>
+      (* the is_closed check; the marker is sent by the next segment *)
       if s_closed st then StepOk st (mk_out PtFinish [] (RUnit true)) else
-      let '(id, st1) := fresh_id st in
-      match buf_send c st1 (IWait id) with
-      | Some st2 => StepOk (set_client st2 a (KWaitAfterSend id)) (mk_out PtWaitAfterSend [] RNone)
-      | None => StepOk st1 (mk_out PtFinish [] (RUnit false))
-      end
+      StepOk (set_client st a KWaitStart) (mk_out PtWaitAfterCheck [] RNone)
   | OClear =>
       if s_closed st then StepOk st (mk_out PtFinish [] (RUnit true)) else
-      match s_pc st with
-      | PExited => StepOk st (mk_out PtFinish [] (RUnit false))
-      | _ =>
-          let '(id, st1) := fresh_id st in
-          StepOk (set_client (upd_clear_sigs st1 (s_clear_sigs st1 ++ [id])) a (KClearBlock id false))
-                 (mk_out PtClearBeforeBlock [] RNone)
-      end
+      StepOk (set_client st a KClearStart) (mk_out PtClearAfterCheck [] RNone)
   | OClose =>
       if s_closed st then StepOk st (mk_out PtFinish [] (RUnit true)) else
       StepOk (set_client (upd_closed st true) a KCloseAfterFlag) (mk_out PtCloseAfterFlag [] RNone)
@@ -345,6 +339,20 @@ Definition continue_client (c : cfg) (st : cstate) (a : N) : step_result :=
           | PExited => StepOk (set_client st a KIdle) (mk_out PtFinish [] (RUnit true))
           | _ => StepBlocked
           end
+      end
+  | KWaitStart =>
+      let '(id, st1) := fresh_id st in
+      match buf_send c st1 (IWait id) with
+      | Some st2 => StepOk (set_client st2 a (KWaitAfterSend id)) (mk_out PtWaitAfterSend [] RNone)
+      | None => StepOk (set_client st1 a KIdle) (mk_out PtFinish [] (RUnit false))
+      end
+  | KClearStart =>
+      match s_pc st with
+      | PExited => StepOk (set_client st a KIdle) (mk_out PtFinish [] (RUnit false))
+      | _ =>
+          let '(id, st1) := fresh_id st in
+          StepOk (set_client (upd_clear_sigs st1 (s_clear_sigs st1 ++ [id])) a (KClearBlock id false))
+                 (mk_out PtClearBeforeBlock [] RNone)
       end
   | KWaitAfterSend id =>
       if s_closed st then StepOk (set_client st a KIdle) (mk_out PtFinish [] (RUnit true))
